@@ -43,6 +43,9 @@ pub enum Ev {
     /// driver level only: an UPDATE whose AS_PATH contains the local AS (the route is not
     /// installed; it is an UPDATE received all the same)
     RxLoopedUpdate,
+    /// driver level only: a KEEPALIVE that arrives 0.2 s earlier within its second than the others, i.e. 0.8 s
+    /// after a message of the second before (re-arms that follow each other by less than a second)
+    RxKeepaliveEarly,
 }
 
 #[derive(Clone, Debug, Serialize, Deserialize)]
@@ -278,7 +281,7 @@ pub fn check(c: &Case) -> CheckResult {
                     last_tx = last_tx.max(*t);
                 }
             }
-            Ev::RxKeepalive => {
+            Ev::RxKeepalive | Ev::RxKeepaliveEarly => {
                 let o = fsm.process(role, Input::MessageReceived(bgp::Message::Keepalive));
                 d.apply(o);
                 last_rearm = d.now;
@@ -378,6 +381,8 @@ enum Act {
     Keepalive,
     Update,
     LoopedUpdate,
+    /// sent 0.05 s into its second instead of 0.25 s
+    KeepaliveEarly,
 }
 
 struct Plan {
@@ -447,6 +452,14 @@ fn plan(c: &Case, eor: bool) -> Plan {
                 };
                 d.advance(secs.clamp(0, 200_000) as u64, &mut fsm, role);
             }
+            Ev::RxKeepaliveEarly => {
+                // only when no timer is due in this very second (the reference serves due timers before messages)
+                let tie = d.hold == Some(d.now) || d.ka == Some(d.now);
+                acts.push((d.now, if tie { Act::Keepalive } else { Act::KeepaliveEarly }));
+                let o = fsm.process(role, Input::MessageReceived(bgp::Message::Keepalive));
+                d.apply(o);
+                d.serve_due(&mut fsm, role);
+            }
             Ev::RxKeepalive => {
                 acts.push((d.now, Act::Keepalive));
                 let o = fsm.process(role, Input::MessageReceived(bgp::Message::Keepalive));
@@ -477,7 +490,7 @@ const MARKER: [u8; 16] = [0xff; 16];
 fn wire(a: Act, remote_hold: u16) -> Vec<u8> {
     let mut m = MARKER.to_vec();
     match a {
-        Act::Keepalive => m.extend_from_slice(&[0, 19, 4]),
+        Act::Keepalive | Act::KeepaliveEarly => m.extend_from_slice(&[0, 19, 4]),
         Act::Update => m.extend_from_slice(&[0, 23, 2, 0, 0, 0, 0]),
         Act::LoopedUpdate => {
             // ORIGIN IGP, AS_PATH [peer AS, the local AS], NEXT_HOP 192.0.2.1; NLRI 10.9.0.0/16 (the repository's encoder)
@@ -650,10 +663,11 @@ async fn drive(c: &Case) -> CheckResult {
         let mut got = Seen::default();
         for (_, a) in p.acts.iter().filter(|(ta, _)| *ta == t) {
             n_sent += 1;
-            advance_to(at(t, 250 + 4 * n_sent - 2)).await;
+            let base = if *a == Act::KeepaliveEarly { 50 } else { 250 };
+            advance_to(at(t, base + 4 * n_sent - 2)).await;
             settle(150).await;
             merge(&mut got, tap.take());
-            advance_to(at(t, 250 + 4 * n_sent)).await;
+            advance_to(at(t, base + 4 * n_sent)).await;
             if got.closed {
                 continue;
             }
@@ -755,6 +769,7 @@ pub fn arb_driver_case(max_len: usize) -> impl Strategy<Value = Case> {
         3 => Just(Ev::RxKeepalive),
         2 => Just(Ev::RxUpdate),
         2 => Just(Ev::RxLoopedUpdate),
+        3 => Just(Ev::RxKeepaliveEarly),
     ];
     (any::<bool>(), arb_hold(), arb_hold(), 0u16..3, 0u16..3, proptest::collection::vec(ev, 0..=max_len))
         .prop_map(|(passive, local_hold, remote_hold, open_delay, ka_delay, script)| Case { passive, local_hold, remote_hold, open_delay, ka_delay, script })
